@@ -43,3 +43,35 @@ pub fn run_exporter(
     let _ = std::fs::remove_file(&path);
     Ok(got)
 }
+
+/// The same over UDP: binds 127.0.0.1:0 and hands `cfg` a fresh default builder together with the receiver's address;
+/// `cfg` names the address itself (so that it can name other addresses before it).
+pub fn run_exporter_udp(
+    cfg: impl FnOnce(DogStatsDBuilder, &str) -> Result<DogStatsDBuilder, String>,
+    emit: impl FnOnce(&DogStatsDRecorder),
+    collect: Duration,
+    done: impl Fn(&[Vec<u8>]) -> bool,
+) -> Result<Vec<Vec<u8>>, String> {
+    let sock = std::net::UdpSocket::bind("127.0.0.1:0").map_err(|e| format!("machinery: bind udp: {}", e))?;
+    sock.set_read_timeout(Some(Duration::from_millis(25))).unwrap();
+    let addr = sock.local_addr().unwrap().to_string();
+    let b = cfg(DogStatsDBuilder::default().with_flush_interval(Duration::from_millis(30)).with_telemetry(false), &addr)?;
+    let rec = b.build().map_err(|e| format!("build: {}", e))?;
+    emit(&rec);
+    let mut got: Vec<Vec<u8>> = Vec::new();
+    let t0 = Instant::now();
+    let mut buf = vec![0u8; 1 << 16];
+    while t0.elapsed() < collect && !done(&got) {
+        if let Ok(n) = sock.recv(&mut buf) {
+            got.push(buf[..n].to_vec());
+        }
+    }
+    let t1 = Instant::now();
+    while t1.elapsed() < Duration::from_millis(150) {
+        if let Ok(n) = sock.recv(&mut buf) {
+            got.push(buf[..n].to_vec());
+        }
+    }
+    drop(rec);
+    Ok(got)
+}
